@@ -368,7 +368,7 @@ pub async fn scenario() {
 	);
 
 	let (wire, tx, rx) = Wire::new();
-	let (ping, req_timeout) = super::draw_ping();
+	let (ping, req_timeout) = super::draw_ping(10);
 	let mut builder = Client::builder();
 	if let Some(p) = ping {
 		builder = builder.enable_ws_ping(p);
